@@ -20,14 +20,15 @@ theorem addFunctions_spec (base : String) (acc : InjAcc) (fs : List SFunc) :
 /-- every public function of the base is re-exposed, once, under its own name or `<field>_<name>`,
     with its receiver, parameters, return type and convention unchanged, forwarding to the original -/
 theorem every_public_reexposed (base : String) (used : List String) (fs : List SFunc) (f : SFunc)
-    (hf : f ∈ fs) (hp : f.vis = .pub) :
+    (hf : f ∈ fs) (hp : f.vis = .pub) (hi : f.isInternal = false) :
     ∃ g ∈ specInject base used fs, g.body = .field base f.name ∧ (g.name = f.name ∨ g.name = renamed base f.name)
       ∧ g.args = f.args ∧ g.ret = f.ret ∧ g.cc = f.cc ∧ g.vis = .pub :=
-  every_public_reexposed_lem base used fs f hf hp
+  every_public_reexposed_lem base used fs f hf hp hi
 
-/-- private functions of a base are not re-exposed -/
+/-- private functions of a base are not re-exposed, and neither are its internal (`_`-prefixed) ones, for which the
+    base has no wrapper to forward to -/
 theorem private_not_reexposed (base : String) (used : List String) (fs : List SFunc) :
-    ∀ g ∈ specInject base used fs, ∃ f ∈ fs, f.vis = .pub ∧ g.body = .field base f.name :=
+    ∀ g ∈ specInject base used fs, ∃ f ∈ fs, f.vis = .pub ∧ f.isInternal = false ∧ g.body = .field base f.name :=
   private_not_reexposed_lem base used fs
 
 /-- **all bases, in order; vftable functions of every base but the first**: the injection loop adds, for
